@@ -130,8 +130,69 @@ def _expected(case, live0, next_id):
     return log, times
 
 
+def check_bptk_session(case):
+    """externally driven single steps through bptk.begin_session / run_step with two agent-based managers that use the same
+    scenario name: every run_step call must execute exactly one step in each scenario"""
+    from BPTK_Py import SimultaneousScheduler, bptk
+
+    M, Ag, Col = _classes()
+    vs = []
+    info = {}
+    start, stop, dt = case["start"], case["stop"], case["dt"]
+    pop = [{"name": t, "count": c} for t, c in case["pop"]]
+    b = bptk()
+    try:
+        models = {}
+        for mgr in ("smA", "smB"):
+            base = M(name="c12", scheduler=SimultaneousScheduler(), data_collector=Col())
+            base.instantiate_model()
+            b.register_scenario_manager({mgr: {"type": "abm", "model": base, "scenarios": {
+                "sc": {"runspecs": {"starttime": start, "stoptime": stop, "dt": dt}, "properties": {}, "agents": pop}}}})
+            m = b.get_scenario(mgr, "sc")
+            m.__dict__["calllog"] = []
+            m.data_collector.calllog = m.calllog
+            m.__dict__["gaps"] = {}
+            m.__dict__["actdel"] = {}
+            m.__dict__["gcount"] = 0
+            models[mgr] = m
+        try:
+            b.begin_session(scenarios=["sc"], scenario_managers=["smA", "smB"], agents=["A"], agent_states=["active"])
+            k = case["nsteps"]
+            for _ in range(k):
+                r = b.run_step()
+                if r is None or "msg" in (r or {}):
+                    k = _
+                    break
+        except Exception as e:
+            vs.append(Violation("crash:%s:bptk-session" % type(e).__name__, "session raised %r" % (e,)))
+            return info, vs
+        for mgr, m in models.items():
+            begins = [e for e in m.calllog if e[0] == "begin"]
+            acts = {}
+            for e in m.calllog:
+                if e[0] == "act":
+                    acts[(e[1], e[2])] = acts.get((e[1], e[2]), 0) + 1
+            if len(begins) != k:
+                vs.append(Violation("bptk-session:steps-per-call", "%d run_step calls executed %d steps in scenario %s/sc (times %r)"
+                                    % (k, len(begins), mgr, [e[1] for e in begins])))
+                break
+            if any(v != 1 for v in acts.values()):
+                vs.append(Violation("bptk-session:acts-per-step", "agents acted %r times per step in %s/sc" % (sorted(set(acts.values())), mgr)))
+                break
+            times = [e[1] for e in begins]
+            if times != sorted(times) or len(set(times)) != len(times):
+                vs.append(Violation("bptk-session:order", "step times %r in %s/sc" % (times, mgr)))
+                break
+    finally:
+        b.destroy()
+    return info, vs
+
+
 def check_case(case):
     from BPTK_Py import SimultaneousScheduler, bptk
+
+    if case["mode"] == "bptk-session":
+        return check_bptk_session(case)
 
     M, Ag, Col = _classes()
     vs = []
@@ -216,15 +277,20 @@ def _body(ctx):
 def case_strategy():
     @st.composite
     def build(draw):
-        mode = draw(st.sampled_from(["run-configure", "run-configure", "run-constructor", "steps", "bptk"]))
+        mode = draw(st.sampled_from(["run-configure", "run-configure", "run-constructor", "steps", "bptk", "bptk-session"]))
         dt = draw(st.sampled_from(DTS))
         per = int(round(1 / dt))
         start = draw(st.integers(0, 6))
         stop = draw(st.integers(max(1, start), max(1, start) + draw(st.integers(0, 6))))
         ntypes = draw(st.integers(1, 3))
-        pop = [[t, draw(st.integers(1 if (mode == "bptk" and t == "A") else 0, 3))] for t in ["A", "B", "C"][:ntypes]]
+        pop = [[t, draw(st.integers(1 if (mode in ("bptk", "bptk-session") and t == "A") else 0, 3))] for t in ["A", "B", "C"][:ntypes]]
         case = {"mode": mode, "start": start, "stop": stop, "dt": dt, "pop": pop,
-                "collect": True if mode in ("steps", "bptk") else draw(st.booleans())}
+                "collect": True if mode in ("steps", "bptk", "bptk-session") else draw(st.booleans())}
+        if mode == "bptk-session":
+            case["nsteps"] = draw(st.integers(1, 5))
+            case["gaps"] = {}
+            case["actdel"] = {}
+            return case
         if mode == "steps":
             case["nsteps"] = draw(st.integers(1, 30))
             total = case["nsteps"]
